@@ -4,8 +4,9 @@
 (*  [op |-> "open", l, H, ppp, nmax, nb, wt]   a boo_2d object was built   *)
 (*        on a neighbour file with frames nb[f][i] (listed ids) and a      *)
 (*        weight file wt[f][i] (integers, same shape) or wt = << >>        *)
-(*  [op |-> "frame", id, pos]                  next snapshot of that       *)
-(*        trajectory, positions as scaled integers                         *)
+(*  [op |-> "frame", id, pos (, H)]            next snapshot of that       *)
+(*        trajectory, positions as scaled integers (and the cell of that   *)
+(*        snapshot when it differs from the first one: sheared runs)       *)
 (* The cursor on the two files is a variable of this spec: snapshot number *)
 (* k of an object is paired with file frame k because one frame is         *)
 (* consumed per snapshot.  psi is real-valued, so nothing is rejected      *)
@@ -21,7 +22,9 @@ Tr == ndJsonDeserialize(IOEnv.TRACE_FILE)
 VARIABLES l, bad, obj, cursor
 vars == <<l, bad, obj, cursor>>
 
-CfAt(rec) == [t |-> 0, H |-> obj.H, ppp |-> obj.ppp, nmax |-> obj.nmax, pos |-> rec.pos,
+\* the cell of a snapshot: a "frame" record may carry its own cell (sheared trajectory: the tilt changes from
+\* frame to frame at constant edge lengths); otherwise the cell given when the object was built
+CfAt(rec) == [t |-> 0, H |-> (IF "H" \in DOMAIN rec THEN rec.H ELSE obj.H), ppp |-> obj.ppp, nmax |-> obj.nmax, pos |-> rec.pos,
               nb |-> obj.nb[cursor + 1], wt |-> IF obj.wt = << >> THEN << >> ELSE obj.wt[cursor + 1]]
 Expect(rec) ==
   LET cf == CfAt(rec) IN
